@@ -29,6 +29,8 @@ type PipeGenOpts struct {
 	V5Anomalies bool
 	UnknownTpl  bool // data for templates never announced
 	Reannounce  bool // later phases redefine templates
+	FillToMax   bool // some datagrams are padded to within 40 octets of max-udp-size
+	SmallUDP    bool // max-udp-size may be small
 }
 
 func pickSubset(r *rand.Rand, all []string) []string {
@@ -81,6 +83,9 @@ func baseCfg(r *rand.Rand, protos []string, o *PipeGenOpts) NodeCfg {
 		c.UDPSize[p] = 1500
 		if o.BigUDP && r.Intn(3) == 0 {
 			c.UDPSize[p] = []int{9000, 65507}[r.Intn(2)]
+		}
+		if o.SmallUDP && r.Intn(3) == 0 {
+			c.UDPSize[p] = []int{600, 1000, 1472}[r.Intn(3)]
 		}
 	}
 	c.CapUDP = []int{1, 2, 16, 1000}[r.Intn(4)]
@@ -231,6 +236,25 @@ func genPipePlan(seed int64, o PipeGenOpts) *PipePlan {
 						if len(m.Sets) == 0 {
 							continue
 						}
+						if o.FillToMax && r.Intn(3) == 0 {
+							// pad with a reserved set so that the datagram length lands within
+							// 40 octets of the configured maximum (or exactly on it)
+							enc, _ := m.Encode(func(id uint16) *model.Template {
+								for ti := range fe.tpls {
+									if fe.tpls[ti].ID == id {
+										return &fe.tpls[ti]
+									}
+								}
+								return nil
+							})
+							target := p.Cfg.udpSize(proto) - r.Intn(41)
+							if r.Intn(3) == 0 {
+								target = p.Cfg.udpSize(proto)
+							}
+							if fill := target - len(enc) - 4; fill >= 0 {
+								m.Sets = append(m.Sets, model.Set{Kind: model.SetRaw, RawID: uint16(4 + r.Intn(200)), RawBody: make([]byte, fill)})
+							}
+						}
 						id := add(Delivery{Phase: ph, AtUs: at(), Proto: proto, Exporter: fe.idx, Abs: m})
 						if o.Benign && r.Intn(8) == 0 {
 							add(Delivery{Phase: ph, AtUs: at(), Proto: proto, Exporter: fe.idx, Abs: m, DupOf: id + 1})
@@ -263,6 +287,16 @@ func genPipePlan(seed int64, o PipeGenOpts) *PipePlan {
 					nd := r.Intn(4)
 					for k := 0; k < nd && len(p.Dels) < maxDels; k++ {
 						dg := model.GenSFDatagram(r, seqOf(), ex.Domain, p.Cfg.udpSize(proto)-50)
+						if o.FillToMax && r.Intn(3) == 0 {
+							target := p.Cfg.udpSize(proto) - r.Intn(41)
+							if r.Intn(3) == 0 {
+								target = p.Cfg.udpSize(proto)
+							}
+							target &^= 3
+							if fill := target - len(dg.Encode()) - 8; fill >= 0 {
+								dg.Samples = append(dg.Samples, model.SFSample{Format: 7, Unknown: make([]byte, fill)})
+							}
+						}
 						id := add(Delivery{Phase: ph, AtUs: at(), Proto: proto, Exporter: ei, SF: dg})
 						if o.Benign && r.Intn(8) == 0 {
 							add(Delivery{Phase: ph, AtUs: at(), Proto: proto, Exporter: ei, SF: dg, DupOf: id + 1})
